@@ -1,7 +1,7 @@
 (* C20_deps and C20_import_values — pkg/chart/v2/util/dependencies.go (processDependencyEnabled
-   :120, getAliasDependency :95, processDependencyTags :63, processDependencyConditions :37,
-   processImportValues :225, processDependencyImportValues :340, pathToMap/set :206),
-   values.go (Table :56, tableLookup :87, PathValue :193, pathValue :200), and the load-time
+   :146, getAliasDependency :95, processDependencyTags :63, processDependencyConditions :37,
+   processImportValues :253, processDependencyImportValues :368, pathToMap/set :234),
+   values.go (Table :56, tableLookup :88, PathValue :194, pathValue :201), and the load-time
    gate pkg/chart/v2/metadata.go Validate :88 / dependency.go Validate :55 as called by
    loader.LoadFiles :172 for the chart and, recursively, every subchart.
 
@@ -156,7 +156,7 @@ Section Deps.
   Variable merge_tables : vmap -> vmap -> vmap.                (* MergeTables(dst, src) *)
   Variable trim : string -> string.                            (* strings.TrimSpace *)
 
-  (* :133 — the inner loop of `Loop:`; true = `continue Loop` *)
+  (* processDependencyEnabled, the inner loop of `Loop:`; true = `continue Loop` *)
   Fixpoint listed (existing : chart) (reqs : list (option dep)) : res bool :=
     match reqs with
     | [] => Ok false
@@ -177,7 +177,7 @@ Section Deps.
         Ok (if b then r else e :: r)
     end.
 
-  (* :95 *)
+  (* getAliasDependency *)
   Fixpoint get_alias (charts : list chart) (d : dep) : res (option chart) :=
     match charts with
     | [] => Ok None
@@ -191,7 +191,7 @@ Section Deps.
             Ok (Some (Chart (Some m') (c_vals c) (c_subs c)))
     end.
 
-  (* :141 — returns the charts found and the requirement list with aliases applied *)
+  (* the loop `for _, req := range c.Metadata.Dependencies { if req == nil { continue } ...` — returns the charts found and the requirement list with aliases applied *)
   Fixpoint alias_pass (subs : list chart) (reqs : list (option dep)) : res (list chart * list (option dep)) :=
     match reqs with
     | [] => Ok ([], [])
@@ -205,7 +205,7 @@ Section Deps.
         Ok ((match a with Some c => [c] | None => [] end ++ fst r)%list, Some d' :: snd r)
     end.
 
-  (* :155 — lr.Enabled = true, no nil check *)
+  (* `for _, lr := range c.Metadata.Dependencies { lr.Enabled = true }` — no nil check *)
   Fixpoint enable_all (reqs : list (option dep)) : res (list dep) :=
     match reqs with
     | [] => Ok []
@@ -215,7 +215,7 @@ Section Deps.
         Ok (set_enabled d true :: r)
     end.
 
-  (* :63; after :155 every entry is known to be non-nil (a nil one has already panicked) *)
+  (* processDependencyTags; after the loop above every entry is known to be non-nil (a nil one has already panicked) *)
   Definition tags_pass (cvals : vmap) (reqs : list dep) : list dep :=
     match table cvals "tags" with
     | None => reqs
@@ -226,7 +226,7 @@ Section Deps.
                if negb has_true && has_false then set_enabled r false else set_enabled r true) reqs
     end.
 
-  (* :42 — the loop over the comma-separated condition paths of one requirement *)
+  (* processDependencyConditions — the loop over the comma-separated condition paths of one requirement *)
   Fixpoint cond_loop (cvals : vmap) (cpath : string) (cs : list string) (cur : bool) : res bool :=
     match cs with
     | [] => Ok cur
@@ -251,7 +251,7 @@ Section Deps.
 
   Definition mem (s : string) (l : list string) : bool := existsb (String.eqb s) l.
 
-  (* :176 — n.Metadata.Name *)
+  (* `if _, ok := rm[n.Metadata.Name]; !ok` *)
   Fixpoint keep_charts (rm : list string) (cs : list chart) : res (list chart) :=
     match cs with
     | [] => Ok []
@@ -365,7 +365,7 @@ Section Deps.
   Section ImportWith.
     Variable loop : vmap -> string -> list val -> vmap -> res (list val * vmap).
 
-    (* :242 — for _, r := range c.Metadata.Dependencies { ... r.ImportValues ... } *)
+    (* processImportValues — for _, r := range c.Metadata.Dependencies { ... r.ImportValues ... } *)
     Fixpoint import_deps (cvals : vmap) (reqs : list (option dep)) (b : vmap) : res (list (option dep) * vmap) :=
       match reqs with
       | [] => Ok ([], b)
